@@ -31,18 +31,6 @@ spif_charptr_t libast_program_version = (spif_charptr_t) "0";
 void libast_fatal_error(const char *fmt, ...) { __CPROVER_assume(0); }
 #endif
 
-#ifdef VERIF_REAL_STDIO
-/* stdio / time used by the diagnostics: body-less (see above).  They are renamed so that cbmc does
- * not link its own vfprintf/time library models in their place (va_list modelling: the solver ran
- * out of memory); a body-less function returns an arbitrary value and writes nothing. */
-int verif_mh_fprintf(FILE *f, const char *fmt, ...);
-int verif_mh_fflush(FILE *f);
-time_t verif_mh_time(time_t *t);
-# define fprintf verif_mh_fprintf
-# define fflush  verif_mh_fflush
-# define time    verif_mh_time
-#endif
-
 /* anchor for a walking pointer whose element type is not char (env.h's VERIF_ANCHOR adds the byte
  * offset in units of the base type): identity re-basing through a byte pointer */
 #define VERIF_MH_ANCHOR(p, base, T) do { \
